@@ -9,7 +9,7 @@ sys.path.insert(0, os.path.dirname(os.path.dirname(os.path.abspath(__file__))))
 import vlib
 
 PID = "C33"
-THEOREM_MODULES = ["GuppyVerif.Props.C33"]
+THEOREM_MODULES = ["GuppyVerif.Props.C33", "GuppyVerif.Props.C33Closure"]
 DRIVER = "C33"
 RULE = (
     "case = (initial flag, program tree) over: bare enable/disable calls, `with enable/disable():` blocks, kept manager "
@@ -18,7 +18,13 @@ RULE = (
     "The tree is printed as Python source and exec'd against the REAL classes; observed: accept/reject (+diagnostic class) "
     "of every check and the real flag after every statement. quick: corpus + random trees (depth<=4); thorough: every tree "
     "with <=5 nodes x both initial flags (exhaustive) + random larger trees. non-trivial = with-nesting depth >=2 or an "
-    "exception raised inside a with block; distinct by canonical request line"
+    "exception raised inside a with block; distinct by canonical request line. SECOND STREAM (which programs trip the closure gate): "
+    "generated enclosing functions with value / Callable parameters, value locals, function-valued locals (`g = double`) and nested "
+    "functions whose straight-line bodies read outer locals of either type, own parameters (possibly shadowing an outer local), own "
+    "name, a global, own temporaries (possibly assigned before/after being read, possibly named like an outer local); each is "
+    "printed as a Guppy program and checked by the real checker with the features off and on (accept / Capturing-closures "
+    "rejection / IllegalAssignError) against Model/ClosureGate.lean and a positional Python oracle; non-trivial = a nested function "
+    "captures or has >1 statement"
 )
 ASSUMPTIONS = [
     "CPython `with` statement semantics (manager expression evaluated first, __exit__ called on normal and exceptional exit, falsy return re-raises)",
@@ -32,9 +38,11 @@ MANIFEST = {
     "exceptional exit and exceptions propagate (with_restores); kept objects restore the value captured at construction "
     "(withVar_restores_captured, bind_captures); each gated feature is rejected iff the flag is false at check time "
     "(gated_iff_flag); the model's whole observation trace equals that of an object-free scoping interpreter "
-    "(trace_refines_spec) and, for programs made of with-blocks only, of a state-free lexical reading (inline_lexical). "
+    "(trace_refines_spec) and, for programs made of with-blocks only, of a state-free lexical reading (inline_lexical); a nested "
+    "function trips the closure gate iff it reads, before assigning it and not as a parameter, a local of the enclosing function "
+    "(closure_gated_iff_captures) whatever the types of the locals (closure_gate_ignores_types). "
     "Model tied to /repo on every run by executing generated trees with the real context managers and real .check() "
-    "calls on 8 feature-using programs (quick 600 random trees; thorough all trees <=5 nodes x 2 flags + 30000 random).",
+    "calls on 11 feature-using programs, plus generated nested-function shapes checked with the features off/on (quick 200, thorough 4000) (quick 600 random trees; thorough all trees <=5 nodes x 2 flags + 30000 random).",
     "level_note": "Trusted: Lean kernel + propext/Classical.choice/Quot.sound; the hand-written model (correspondence is "
     "sampling, exhaustive for small trees in the thorough tier); one fixed program per gate call site stands for 'programs "
     "using the feature'; CPython's with-statement semantics.",
@@ -43,7 +51,7 @@ MANIFEST = {
     "ready": True,
 }
 UNMODELLED = [
-    "which Guppy programs reach a check_*_enabled call (one fixed program per call site is used; the checker itself is not modelled)",
+    "which Guppy programs reach the list / tensor / modifier gates (fixed programs per call site); for closures the trigger (captured = live ∩ locals − params) is modelled for straight-line nested bodies, not for branching bodies or deeper nesting",
     "threads / contextvars: the flag is a plain module global, concurrent use is out of scope",
     "re-calling __init__ on an existing manager object",
 ]
@@ -64,6 +72,12 @@ VARIANTS = [
      "@guppy\ndef main(x: int) -> int:\n    def g() -> int:\n        return x\n    return g()\n"),
     ("modifiers", "modifier_block",
      "from guppylang.std.quantum import qubit, h\n@guppy\ndef main(q: qubit) -> None:\n    with dagger:\n        h(q)\n"),
+    ("closures", "closure_callable_param",
+     "from collections.abc import Callable\n@guppy\ndef main(f: Callable[[int], int]) -> int:\n    def g(b: int) -> int:\n        return f(b) + 1\n    return g(1)\n"),
+    ("closures", "closure_function_valued_local",
+     "@guppy\ndef double(a: int) -> int:\n    return 2 * a\n@guppy\ndef main(n: int) -> int:\n    h = double\n    def g(b: int) -> int:\n        return h(b) + 1\n    return g(n)\n"),
+    ("closures", "closure_sibling_local_function",
+     "@guppy\ndef main(n: int) -> int:\n    def helper(b: int) -> int:\n        return b + 1\n    def g(b: int) -> int:\n        return helper(helper(b))\n    return g(n)\n"),
 ]
 BY_FEATURE = {f: [i for i, v in enumerate(VARIANTS) if v[0] == f] for f in FEATURES}
 THINGS = {"lists": "Lists", "tensors": "Function tensors", "closures": "Capturing closures", "modifiers": "Modifiers"}
@@ -367,6 +381,8 @@ def _cases(ctx):
     corpus = os.path.join(vlib.VERIF, "corpus", "c33")
     if os.path.isdir(corpus):
         for fn in sorted(os.listdir(corpus)):
+            if fn.startswith("closure"):
+                continue  # closure-shape cases, read by _closure_cases
             for init, p in json.load(open(os.path.join(corpus, fn))):
                 cases.append((bool(init), _tup(p)))
     if ctx.replay_in and "case" in ctx.replay_in.get("replay", {}):
@@ -423,14 +439,234 @@ def _variants(p):
     return out
 
 
+# ----------------------------------------------------------------- closure shapes (which nested functions trip the gate)
+# case = {"items": [["v", id] | ["f", id, how] | ["n", name, [params], [[assigned|None, [reads]], ...]]]}
+GLOBAL_FN = 99
+
+
+def _gen_closure(rng):
+    items = [["v", 0]]
+    env = {0: "value", GLOBAL_FN: "func"}
+    fresh = [10]
+
+    def new_id():
+        fresh[0] += 1
+        return fresh[0]
+
+    if rng.random() < 0.6:
+        items.append(["f", 1, "param"])
+        env[1] = "func"
+    nested_names, nested_arity = [], {}
+    for _ in range(rng.choice([1, 2, 2, 3, 4])):
+        t = rng.choice(["v", "f", "n", "n", "n"])
+        if t == "v":
+            x = new_id()
+            items.append(["v", x])
+            env[x] = "value"
+        elif t == "f":
+            x = new_id()
+            items.append(["f", x, "alias"])
+            env[x] = "func"
+        else:
+            name = rng.choice(nested_names) if nested_names and rng.random() < 0.12 else new_id()
+            outer = [k for k in env if k != GLOBAL_FN]
+            params = []
+            want = nested_arity.get(name) or rng.choice([1, 1, 2])  # a redefinition keeps the arity (all calls stay well-typed)
+            for _ in range(want):
+                q = rng.choice(outer) if rng.random() < 0.2 else new_id()
+                if q not in params and q != name:
+                    params.append(q)
+            while len(params) < want:
+                params.append(new_id())
+            nested_arity[name] = len(params)
+            temps, body = [], []
+            n_st = rng.choice([1, 1, 2, 3])
+            for i in range(n_st):
+                # bias: function-typed locals, value locals, own params, own name, the global, earlier temporaries
+                funcs = [k for k in outer if env[k] == "func"]
+                vals = [k for k in outer if env[k] == "value"]
+                pool = params * 2 + temps + [GLOBAL_FN]
+                r = rng.random()
+                if r < 0.35 and funcs:
+                    pool += funcs * 4
+                elif r < 0.6:
+                    pool += vals * 3
+                elif r < 0.75:
+                    pool += funcs + vals
+                if rng.random() < 0.15:
+                    pool.append(name)
+                reads = [rng.choice(pool) for _ in range(rng.choice([1, 2, 3]))]
+                if i == n_st - 1:
+                    body.append([None, reads])
+                else:
+                    tgt = rng.choice(outer) if rng.random() < 0.25 else new_id()
+                    if tgt == name:
+                        tgt = new_id()
+                    temps.append(tgt)
+                    body.append([tgt, reads])
+            items.append(["n", name, params, body])
+            env[name] = "func"
+            if name not in nested_names:
+                nested_names.append(name)
+    return {"items": items}
+
+
+def _closure_line(flag, case):
+    out = []
+    for it in case["items"]:
+        if it[0] == "v":
+            out.append(f"(v {it[1]})")
+        elif it[0] == "f":
+            out.append(f"(f {it[1]})")
+        else:
+            st = " ".join("(" + ("-" if a is None else str(a)) + "".join(f" {r}" for r in rs) + ")" for a, rs in it[3])
+            out.append(f"(n {it[1]} ({' '.join(map(str, it[2]))}) ({st}))")
+    return f"cl {1 if flag else 0} (" + " ".join(out) + ")"
+
+
+def _closure_source(case):
+    """print the shape as a Guppy program: every value is an int, every function int -> int"""
+    nm = lambda i: "double" if i == GLOBAL_FN else f"n{i}"
+    params, lines = [], []
+    env = {GLOBAL_FN: "func"}
+    arity = {}
+    call = lambda r: f"{nm(r)}({', '.join('1' for _ in range(arity.get(r, 1)))})"
+    last_fn = None
+    for it in case["items"]:
+        if it[0] == "v" and it[1] == 0:
+            params.append("n0: int")
+            env[0] = "value"
+        elif it[0] == "f" and it[2] == "param":
+            params.append(f"{nm(it[1])}: Callable[[int], int]")
+            env[it[1]] = "func"
+        elif it[0] == "v":
+            lines.append(f"    {nm(it[1])} = 3")
+            env[it[1]] = "value"
+        elif it[0] == "f":
+            lines.append(f"    {nm(it[1])} = double")
+            env[it[1]] = "func"
+        else:
+            _, name, ps, body = it
+            inner = dict(env)
+            inner[name] = "func"
+            arity[name] = len(ps)
+            for q in ps:
+                inner[q] = "value"
+            lines.append(f"    def {nm(name)}(" + ", ".join(f"{nm(q)}: int" for q in ps) + ") -> int:")
+            for a, rs in body:
+                e = " + ".join(nm(r) if inner.get(r) == "value" else call(r) for r in rs)
+                if a is None:
+                    lines.append(f"        return {e}")
+                else:
+                    lines.append(f"        {nm(a)} = {e}")
+                    inner[a] = "value"
+            env[name] = "func"
+            last_fn = (name, len(ps))
+    ret = f"    return {nm(last_fn[0])}({', '.join('1' for _ in range(last_fn[1]))})" if last_fn else "    return 0"
+    return ("from collections.abc import Callable\n@guppy\ndef double(a: int) -> int:\n    return 2 * a\n"
+            f"@guppy\ndef main({', '.join(params)}) -> int:\n" + "\n".join(lines + [ret]) + "\n")
+
+
+def _closure_real(case):
+    import feed
+    import guppylang_internals.experimental as ex
+
+    m = feed.load(_closure_source(case))
+    saved = ex.EXPERIMENTAL_FEATURES_ENABLED
+    out = []
+    try:
+        for flag in (False, True):
+            ex.EXPERIMENTAL_FEATURES_ENABLED = flag
+            kind, e = feed.check_outcome(m.main)
+            if kind == "ok":
+                out.append("accept")
+            elif kind == "user":
+                d = getattr(e, "error", None)
+                cls = type(d).__name__
+                if cls == "UnsupportedError" and getattr(d, "things", None) == "Capturing closures":
+                    out.append("reject")
+                elif cls == "IllegalAssignError":
+                    out.append("illegal")
+                else:
+                    out.append("other:" + cls)
+            else:
+                out.append("crash:" + type(e).__name__)
+        return out
+    finally:
+        ex.EXPERIMENTAL_FEATURES_ENABLED = saved
+        feed.unload(m)
+
+
+def _closure_oracle(case, flag):
+    """literal reading: a nested function is a capturing closure iff it reads — before assigning it itself and
+    not as one of its own parameters — a name that is a local of the enclosing function at that point, whatever
+    that local's type; capturing closures are rejected iff the features are off."""
+    outer = set()
+    for it in case["items"]:
+        if it[0] in ("v", "f"):
+            outer.add(it[1])
+            continue
+        _, name, ps, body = it
+        assigned_so_far, caught = set(), set()
+        for a, rs in body:
+            for r in rs:
+                if r in outer and r not in ps and r not in assigned_so_far:
+                    caught.add(r)
+            if a is not None:
+                assigned_so_far.add(a)
+        if caught:
+            if not flag:
+                return "reject"
+            if any(a in caught for a, _ in body):
+                return "illegal"
+        outer.add(name)
+    return "accept"
+
+
+def _closure_tie(ctx, cases, use_model=True):
+    lines = []
+    for c in cases:
+        lines += [_closure_line(False, c), _closure_line(True, c)]
+    model = ctx.driver(DRIVER, lines) if use_model else [None] * len(lines)
+    for i, c in enumerate(cases):
+        real = _closure_real(c)
+        for j, flag in enumerate((False, True)):
+            line, m, orc = lines[2 * i + j], model[2 * i + j], _closure_oracle(c, flag)
+            kinds = {(it[2] if it[0] == "f" else it[0]) for it in c["items"]}
+            ctx.count(line, nontrivial=orc != "accept" or any(it[0] == "n" and len(it[3]) > 1 for it in c["items"]),
+                      kind="closure-shape:" + orc)
+            if real[j] != orc:
+                ctx.violation(
+                    "closure:" + line,
+                    f"capturing-closure gate differs from the statement on `{line}`: real={real[j]} expected={orc}\n{_closure_source(c)}",
+                    {"closure_case": c, "line": line, "flag": flag, "real": real[j], "oracle": orc, "model": m,
+                     "source": _closure_source(c)},
+                )
+            if use_model and real[j] != m:
+                ctx.broke(f"correspondence Model/ClosureGate.lean vs check_nested_func_def on `{line}` (real={real[j]} model={m})")
+
+
+def _closure_cases(ctx, n):
+    cases = []
+    d2 = os.path.join(vlib.VERIF, "corpus", "c33", "closures.json")
+    if os.path.exists(d2):
+        cases += json.load(open(d2))
+    if ctx.replay_in and "closure_case" in ctx.replay_in.get("replay", {}):
+        cases.append(ctx.replay_in["replay"]["closure_case"])
+    cases += [_gen_closure(ctx.rng) for _ in range(n)]
+    return cases
+
+
 def tie(ctx):
     _eval(ctx, _cases(ctx))
+    _closure_tie(ctx, _closure_cases(ctx, ctx.n(200, 4000)))
 
 
 def search(ctx, why):
     """something broke without a concrete failing input: more random trees against the oracle only"""
     cases = [(ctx.rng.random() < 0.5, _rand_tree(ctx.rng, ctx.rng.choice([2, 3, 4]))) for _ in range(ctx.n(2000, 20000))]
     _eval(ctx, cases, use_model=False)
+    _closure_tie(ctx, [_gen_closure(ctx.rng) for _ in range(ctx.n(500, 5000))], use_model=False)
 
 
 if __name__ == "__main__":
